@@ -464,6 +464,64 @@ def weak_partner(ctx, res):
     res.oblige(ok, "sync_trait:death-callback", mod.loc(fn),
                "the weakref callback does not delete the dead partner's "
                "entries by identity of the reference")
+    # a weakly held partner may be gone by the time a propagation handler
+    # gets to it (the handlers walk a snapshot of the links, and an earlier
+    # partner's handler can drop the last reference): the dereferenced
+    # partner is compared with None before anything is done with it
+    from ..pyfacts import normalize_guards
+    n_deref = 0
+    for meth in ("_sync_trait_modified", "_sync_trait_items_modified"):
+        hf = normalize_guards(repo.inlined(HT, f"HasTraits.{meth}"))
+        par = {}
+        for p_ in ast.walk(hf):
+            for c in ast.iter_child_nodes(p_):
+                par[id(c)] = p_
+        for loop in [n for n in ast.walk(hf) if isinstance(n, ast.For)]:
+            lvars = set(names_in(loop.target))
+            derefs = [a for a in ast.walk(loop) if isinstance(a, ast.Assign)
+                      and isinstance(a.value, ast.Call) and not a.value.args
+                      and isinstance(a.value.func, ast.Name)
+                      and a.value.func.id in lvars
+                      and isinstance(a.targets[0], ast.Name)]
+            for d in derefs:
+                v = d.targets[0].id
+                n_deref += 1
+                res.instance(f"{meth}:deref:{v}", mod.loc(d))
+                bad = None
+                for u in ast.walk(loop):
+                    used = (isinstance(u, ast.Attribute)
+                            and isinstance(u.value, ast.Name)
+                            and u.value.id == v) or (
+                        isinstance(u, ast.Call) and u is not d.value
+                        and any(isinstance(a, ast.Name) and a.id == v
+                                for a in u.args))
+                    if not used or getattr(u, "lineno", 0) < d.lineno:
+                        continue
+                    ok = False
+                    child, p_ = u, par.get(id(u))
+                    while p_ is not None and p_ is not loop:
+                        if isinstance(p_, ast.If):
+                            t = norm(p_.test)
+                            inb = any(child is s_ for s_ in p_.body)
+                            ine = any(child is s_ for s_ in p_.orelse)
+                            if (inb and f"{v} is not None" in t) \
+                                    or (ine and t == f"{v} is None"):
+                                ok = True
+                        child, p_ = p_, par.get(id(p_))
+                    if not ok and bad is None:
+                        bad = u
+                res.oblige(bad is None, f"{meth}:dead-partner", mod.loc(d),
+                           f"{meth} dereferences the weakly held partner "
+                           f"(`{norm(d)}`) and uses it "
+                           f"(`{norm(bad)[:50] if bad is not None else ''}`) "
+                           f"without comparing it with None: a partner that "
+                           f"died while an earlier partner's handler ran is "
+                           f"still in the snapshot of the links - the "
+                           f"AttributeError leaves the propagation lock set "
+                           f"and every later update from a partner is dropped")
+    if n_deref < 2:
+        raise AnalysisError("dereference of the weak partner not found in the "
+                            "propagation handlers")
     res.floor(1)
 
 
